@@ -33,6 +33,7 @@ type fTok struct {
 
 type fmtSide struct {
 	W           *World
+	BoundKey    map[string]string // printed loop bound -> the same expression with local variables replaced by their types
 	Decl        *ast.FuncDecl
 	Writer      bool
 	Sites       []token.Pos                   // call sites (in Decl) of inlined package functions
@@ -192,6 +193,7 @@ func widthOf(t types.Type) (string, bool) {
 
 // extractFmt builds the token tree of a WriteTo / ReadFrom declaration.
 func extractFmt(w *World, decl *ast.FuncDecl, writer bool) *fmtSide {
+	flattenElse(decl.Body)
 	s := &fmtSide{W: w, Decl: decl, Writer: writer, Makes: map[types.Object]string{}, Defs: map[types.Object]ast.Expr{}, Closures: map[types.Object]*ast.FuncLit{}}
 	s.Roots = []ast.Node{decl.Body}
 	info := w.Info
@@ -390,7 +392,19 @@ func parseExprCached(string) (ast.Expr, error) { return nil, nil }
 
 func (s *fmtSide) block(list []ast.Stmt) []*fTok {
 	var out []*fTok
-	for _, st := range list {
+	for i, st := range list {
+		// a guard clause that leaves with success before anything else is coded: `if C { return nil }; rest` reads as
+		// `if !C { rest }` — a conditional section (only inside followed helpers: the top-level function may not report
+		// success early, FMT4 checks that separately)
+		if ifs, ok := st.(*ast.IfStmt); ok && s.depth > 0 && ifs.Init == nil && ifs.Else == nil && len(ifs.Body.List) == 1 && i+1 < len(list) {
+			if rs, isRet := ifs.Body.List[0].(*ast.ReturnStmt); isRet && len(rs.Results) >= 1 && exprStr(rs.Results[len(rs.Results)-1]) == "nil" && len(s.expr(ifs.Cond)) == 0 {
+				rest := s.block(list[i+1:])
+				if len(rest) > 0 {
+					out = append(out, &fTok{Kind: "COND", Cond: "!(" + exprStr(ifs.Cond) + ")", Body: rest, Pos: ifs.Pos()})
+				}
+				return out
+			}
+		}
 		out = append(out, s.stmt(st)...)
 	}
 	return out
@@ -424,6 +438,15 @@ func (s *fmtSide) stmt(st ast.Stmt) []*fTok {
 		out = append(out, s.expr(x.Cond)...)
 		body := s.block(x.Body.List)
 		var els []*fTok
+		if blk, isBlk := x.Else.(*ast.BlockStmt); isBlk && len(x.Body.List) > 0 {
+			// `if C {…; return} else {rest}` reads as `if C {…; return}; rest`: the else branch continues the sequence
+			if _, isRet := x.Body.List[len(x.Body.List)-1].(*ast.ReturnStmt); isRet {
+				if len(body) > 0 {
+					out = append(out, &fTok{Kind: "COND", Cond: exprStr(x.Cond), Body: body, Pos: x.Pos()})
+				}
+				return append(out, s.block(blk.List)...)
+			}
+		}
 		if x.Else != nil {
 			els = s.stmt(x.Else)
 		}
@@ -488,6 +511,10 @@ func (s *fmtSide) stmt(st ast.Stmt) []*fTok {
 		if !s.Writer {
 			b = s.rangeBound(x.X)
 		}
+		if s.BoundKey == nil {
+			s.BoundKey = map[string]string{}
+		}
+		s.BoundKey[b] = nameFree(s.W.Info, x.X)
 		return []*fTok{{Kind: "LOOP", Len: b, Body: body, Pos: x.Pos(), Whole: true}}
 	case *ast.SwitchStmt, *ast.TypeSwitchStmt:
 		// a switch with stream operations in exactly one clause is a conditional section (comma-ok assertion written as
@@ -714,6 +741,10 @@ func (s *fmtSide) call(c *ast.CallExpr) []*fTok {
 					arg = se.X
 				}
 				t.Len = exprStr(arg)
+				if s.BoundKey == nil {
+					s.BoundKey = map[string]string{}
+				}
+				s.BoundKey[t.Len] = nameFree(info, arg)
 				if at, ok := info.TypeOf(arg).Underlying().(*types.Array); ok {
 					t.Len = fmt.Sprint(at.Len())
 				}
@@ -928,6 +959,10 @@ func (s *fmtSide) field(arg ast.Expr, pos token.Pos) *fTok {
 	}
 	if strings.HasPrefix(wd, "[]") {
 		t.Slice = true
+		if s.BoundKey == nil {
+			s.BoundKey = map[string]string{}
+		}
+		s.BoundKey[t.Arg] = nameFree(info, arg)
 	}
 	return t
 }
@@ -1134,4 +1169,70 @@ func (s *fmtSide) loopSkips(body *ast.BlockStmt, toks []*fTok) {
 		})
 	}
 	visit(body, false)
+}
+
+// flattenElse rewrites, in the syntax tree the serialisation rules read, `if C {…; return} else {rest}` into
+// `if C {…; return}; rest` (the same statements in the same order on every execution; only the scope of names declared in
+// rest differs, which no rule here looks at). The rules then see one statement sequence per stream.
+func flattenElse(n ast.Node) {
+	var doList func(list []ast.Stmt) []ast.Stmt
+	doList = func(list []ast.Stmt) []ast.Stmt {
+		var out []ast.Stmt
+		for _, st := range list {
+			out = append(out, st)
+			if iff, ok := st.(*ast.IfStmt); ok {
+				if blk, isBlk := iff.Else.(*ast.BlockStmt); isBlk && len(iff.Body.List) > 0 {
+					if _, isRet := iff.Body.List[len(iff.Body.List)-1].(*ast.ReturnStmt); isRet {
+						iff.Else = nil
+						out = append(out, doList(blk.List)...)
+					}
+				}
+			}
+		}
+		return out
+	}
+	ast.Inspect(n, func(m ast.Node) bool {
+		switch x := m.(type) {
+		case *ast.BlockStmt:
+			x.List = doList(x.List)
+		case *ast.CaseClause:
+			x.Body = doList(x.Body)
+		case *ast.CommClause:
+			x.Body = doList(x.Body)
+		}
+		return true
+	})
+}
+
+// nameFree prints an expression with every local variable replaced by `$` and its type: the description of a loop bound
+// that does not depend on how locals are called (`vec` → `$[]float32`, `idx.codes[i]` → `$*PQIndex.codes[$int]`).
+func nameFree(info *types.Info, e ast.Expr) string {
+	var pr func(e ast.Expr) string
+	pr = func(e ast.Expr) string {
+		switch x := e.(type) {
+		case *ast.Ident:
+			if v, ok := info.Uses[x].(*types.Var); ok && !v.IsField() && v.Pkg() != nil && v.Parent() != v.Pkg().Scope() {
+				return "$" + tstr(v.Type(), qual)
+			}
+			return x.Name
+		case *ast.SelectorExpr:
+			return pr(x.X) + "." + x.Sel.Name
+		case *ast.IndexExpr:
+			return pr(x.X) + "[" + pr(x.Index) + "]"
+		case *ast.CallExpr:
+			var as []string
+			for _, a := range x.Args {
+				as = append(as, pr(a))
+			}
+			return pr(x.Fun) + "(" + strings.Join(as, ",") + ")"
+		case *ast.ParenExpr:
+			return pr(x.X)
+		case *ast.StarExpr:
+			return "*" + pr(x.X)
+		case *ast.UnaryExpr:
+			return x.Op.String() + pr(x.X)
+		}
+		return exprStr(e)
+	}
+	return pr(e)
 }
